@@ -514,6 +514,17 @@ def _case_agg(case, ctx, pym):
                     if _check_bound(rec, ctx, kind, par, x, y, variant + "/" + pname):
                         lo, hi, tol = _interval(kind, par, n, mx, mn)
                         worst_b = max(worst_b, max(lo - y, y - hi, 0.0) / max(abs(lo), abs(hi), 1e-300))
+                    if variant == "plain" and rng.random() < 0.25:
+                        # the same values stored as a column, a row or a block (a field kept as (n,1) or (nx,ny)): the aggregate is
+                        # over all entries, whatever the shape
+                        shp = [(n, 1), (1, n)] + ([(2, n // 2)] if n % 2 == 0 and n >= 4 else [])
+                        sx.state = x.reshape(shp[int(rng.integers(len(shp)))])
+                        m.response()
+                        y2 = _scalar(m.sig_out[0].state)
+                        sx.state = x
+                        ctx.count("aggregates_of_2d_inputs")
+                        if not (math.isfinite(y2) and abs(y2 - y) <= 1e-12 * max(abs(y), 1e-300)):
+                            rec("bounds/aggregate-depends-on-the-shape-the-values-are-stored-in", kind=kind, par=par, n=n, flat=y, shaped=y2, x=x)
     # parameter continuation by attribute assignment on an existing module (m.p = ..., m.rho = ...: the pattern of the
     # library's own tests): the next response obeys the bounds of the *new* parameter
     x = np.ascontiguousarray(_positive_patterns(rng, n)["distinct"], dtype=float)
@@ -801,8 +812,18 @@ def _case_aset_rand(case, ctx, pym):
         n = int(np.exp(rng.uniform(0, np.log(case["nmax"]))))
         n = max(1, n)
         nmaxseen = max(nmaxseen, n)
-        style = int(rng.integers(0, 9))
-        if style >= 7:
+        style = int(rng.integers(0, 11))
+        if style >= 9:
+            # values clustered around a common offset with a spread of a few ... 1e6 units in the last place (temperatures around 1000 K,
+            # frequencies around 1e6 Hz): the normalised values k/K are exact, a de-normalised threshold is rounded onto the data grid
+            c = float(rng.choice([1000.0, 1.0, 1e6, 273.15, 7.3e-3]))
+            K = int(rng.choice([5, 10, 20, 50, 200]))
+            step = float(np.spacing(c)) * float(rng.choice([1, 1, 2, 3, 1000, 1e6]))
+            n = max(n, 3)
+            kk = rng.integers(0, K + 1, n)
+            kk[0], kk[1] = 0, K
+            x = c + kk[rng.permutation(n)] * step
+        elif style >= 7:
             # integer-valued data over a long range (percentages, counts): a band limit that coincides with an entry, lr = k/N, is
             # on the band only if the comparison is made on the normalised values ((k/N)*N need not be k in floating point)
             N = int(rng.choice([100, 100, 1000, 37, 49]))
